@@ -160,3 +160,144 @@ Example c17_example_f2 :
   /\ paths subtract_path 5 f2_graph [0] [4] None (9 # 10) = Ok ([[0; 1; 2; 4]; [0; 1; 3; 4]], [1; 1 # 2]%Q).
 Proof. vm_compute. split; reflexivity. Qed.
 Print Assumptions c17_example_f2.
+
+(* ====================================================================== round 2 *)
+From EV Require Import PathsConserved PathBase PathGen PathGenProofs.
+
+(* Clause "(their sum) reaches the requested fraction when the flux is conserved" -- subtract scheme.
+   Vocabulary (Proof/PathsConserved.v):
+     conserved n f S T   for every state v < n: inflow (column sum) = 0 if v is a source; otherwise
+                         outflow (row sum) = 0 if v is a sink; otherwise inflow = outflow
+     acyclic n f         a topological order exists: some rank : nat -> nat increases along every edge
+                         of positive flux between states < n
+   (executable forms conservedb / forwardb of Model/Paths.v imply them, see the Example below).
+
+   Step 1: while the residual outflow of the sources is positive, a source-to-sink walk along edges of
+   positive flux exists in the residual matrix (its bottleneck is positive) ... *)
+Theorem c17_conserved_positive_outflow_has_path : forall n f srcs sinks,
+  nonneg f -> conserved n f srcs sinks -> acyclic n f ->
+  (forall s, In s srcs -> s < n) -> (0 < total_flux n f srcs)%Q ->
+  exists w, st_walk n f srcs sinks w /\ ele (Fin 0) (bottleneck f w) /\ bottleneck f w <> Fin 0.
+Proof. exact positive_outflow_has_walk. Qed.
+Print Assumptions c17_conserved_positive_outflow_has_path.
+
+(* ... so top_path reports a finite positive flux: neither -inf (on which `paths` would stop early)
+   nor +inf (no source is a sink). *)
+Theorem c17_conserved_top_path_finite : forall n f srcs sinks p fl,
+  nonneg f -> conserved n f srcs sinks -> acyclic n f ->
+  (forall x, In x srcs -> ~ In x sinks) -> (0 < total_flux n f srcs)%Q ->
+  top_path n f srcs sinks = Ok (p, fl) -> exists q, fl = Fin q /\ (0 < q)%Q.
+Proof. exact conserved_top_path_finite. Qed.
+Print Assumptions c17_conserved_top_path_finite.
+
+(* Step 2: subtracting the pathway just found keeps the flow non-negative, conserved and acyclic and
+   lowers the outflow of the sources by exactly the reported pathway flux. *)
+Theorem c17_subtract_keeps_conserved : forall n f srcs sinks p q,
+  nonneg f -> conserved n f srcs sinks -> acyclic n f -> NoDup srcs ->
+  top_path n f srcs sinks = Ok (p, Fin q) ->
+  nonneg (subtract_path f p) /\ conserved n (subtract_path f p) srcs sinks /\
+  acyclic n (subtract_path f p) /\
+  (total_flux n (subtract_path f p) srcs == total_flux n f srcs - q)%Q.
+Proof. exact subtract_step_lemma. Qed.
+Print Assumptions c17_subtract_keeps_conserved.
+
+(* Step 3: with num_paths = inf (None) the loop ends only when the explained fraction has reached the
+   cut-off or the whole outflow has been explained (any cut-off, also > 1) ... *)
+Theorem c17_conserved_stops_at_fraction_or_exhausted : forall n f srcs sinks cutoff ps qs,
+  nonneg f -> conserved n f srcs sinks -> acyclic n f ->
+  NoDup srcs -> (forall x, In x srcs -> ~ In x sinks) ->
+  paths subtract_path n f srcs sinks None cutoff = Ok (ps, qs) ->
+  (cutoff * total_flux n f srcs <= qsum qs)%Q \/ (qsum qs == total_flux n f srcs)%Q.
+Proof. exact conserved_reaches_general. Qed.
+Print Assumptions c17_conserved_stops_at_fraction_or_exhausted.
+
+(* ... hence the clause: for a requested fraction <= 1 the returned fluxes add up to at least that
+   fraction of the total outflow of the sources.  (Sources listed once and disjoint from the sinks: a
+   duplicated source is counted twice by net_flux[sources, :].sum(), a source that is a sink makes
+   top_path answer +inf.  Exact arithmetic; the value `= Ok` excludes malformed state sets, and
+   c17_paths_total_subtract shows it is met by all well-formed ones.) *)
+Theorem c17_conserved_reaches_fraction : forall n f srcs sinks cutoff ps qs,
+  nonneg f -> conserved n f srcs sinks -> acyclic n f ->
+  NoDup srcs -> (forall x, In x srcs -> ~ In x sinks) -> (cutoff <= 1)%Q ->
+  paths subtract_path n f srcs sinks None cutoff = Ok (ps, qs) ->
+  (cutoff * total_flux n f srcs <= qsum qs)%Q.
+Proof. exact conserved_reaches_lemma. Qed.
+Print Assumptions c17_conserved_reaches_fraction.
+
+(* The hypotheses are met by the graph of test_paths (and follow from the executable tests). *)
+Theorem c17_conserved_tests_sound : forall n f srcs sinks ord,
+  (conservedb n f srcs sinks = true -> conserved n f srcs sinks) /\
+  (forwardb n f ord = true -> acyclic n f).
+Proof. exact conserved_tests_sound. Qed.
+Print Assumptions c17_conserved_tests_sound.
+
+Example c17_example_conserved :
+  nonneg ex_graph /\ conserved 6 ex_graph [0] [5] /\ acyclic 6 ex_graph /\ NoDup [0] /\
+  (forall x, In x [0] -> ~ In x [5]).
+Proof. exact ex_graph_hyps. Qed.
+Print Assumptions c17_example_conserved.
+
+(* Tie to the source: Gen/PathGen.v is regenerated from enspara/tpt/path.py by translator/tr_path.py
+   (statement shapes recognised fail-closed, scalar logic translated).  The generated scalars are the
+   model's: neighbour test `> 0`, candidate min(edge, upstream), relaxation only of unvisited states
+   with a strictly larger candidate, pop = first maximal label in the queue, early exit once all sinks
+   are visited, end state = first sink of maximal label ... *)
+Theorem c17_generated_search_tests_are_model :
+  (gen_label_other = NInf /\ gen_label_source = PInf) /\
+  (forall mq, gen_pop_index mq = argmax mq) /\
+  (forall (vis : nat -> bool) sinks, gen_exit_test (map vis sinks) = forallb vis sinks) /\
+  (forall x, gen_neighbor_test x = Qltb 0%Q x) /\
+  (forall edge up, gen_clip edge up = emin (Fin edge) up) /\
+  (forall v nw old, gen_relax_test v nw old = negb v && eltb old nw) /\
+  (forall ms, gen_sink_index ms = argmax ms).
+Proof.
+  exact (conj gen_labels_eq (conj gen_pop_index_eq (conj gen_exit_test_eq (conj gen_neighbor_test_eq
+        (conj gen_clip_eq (conj gen_relax_test_eq gen_sink_index_eq)))))).
+Qed.
+Print Assumptions c17_generated_search_tests_are_model.
+
+(* ... the removal schemes subtract the MINIMUM along the path and set exactly the first minimal edge
+   to exactly zero ... *)
+Theorem c17_generated_removal_scalars_are_model :
+  (forall vals, gen_rb_index vals = argminQ vals) /\ gen_rb_value = 0%Q /\
+  (forall vals, gen_sp_amount vals = minQ vals) /\ (forall x m, gen_sp_sub x m = Qred (x - m)%Q) /\
+  (forall vals, gen_sp_index vals = argminQ vals) /\ gen_sp_value = 0%Q.
+Proof. exact gen_remove_scalars_eq. Qed.
+Print Assumptions c17_generated_removal_scalars_are_model.
+
+(* ... and the loop of `paths`: isinf guard, explained-fraction update, counter, the two stopping tests. *)
+Theorem c17_generated_loop_tests_are_model :
+  (forall fl, gen_isinf_test fl = match fl with Fin _ => false | _ => true end) /\
+  gen_counter0 = 0 /\ gen_expl0 = 0%Q /\
+  (forall expl q total, gen_expl_update expl q total = Qred (expl + q / total)%Q) /\
+  (forall c, gen_counter_update c = S c) /\
+  (forall c np expl cutoff, gen_stop_test c np expl cutoff = reached_count np c || Qle_bool cutoff expl).
+Proof. exact (conj gen_isinf_test_eq gen_loop_scalars_eq). Qed.
+Print Assumptions c17_generated_loop_tests_are_model.
+
+(* Hence the regenerated functions are the model on all inputs: every theorem of this file is a
+   theorem about the text of path.py as translated. *)
+Theorem c17_generated_top_path_is_model : forall n f srcs sinks,
+  gen_top_path n f srcs sinks = top_path n f srcs sinks.
+Proof. exact gen_top_path_eq. Qed.
+Print Assumptions c17_generated_top_path_is_model.
+
+Theorem c17_generated_removals_are_model : forall f p a b,
+  gen_scheme_subtract f p a b = subtract_path f p a b /\
+  gen_scheme_bottleneck f p a b = remove_bottleneck f p a b.
+Proof. exact gen_removals_eq. Qed.
+Print Assumptions c17_generated_removals_are_model.
+
+Theorem c17_generated_paths_is_model : forall n f srcs sinks npaths cutoff,
+  gen_paths gen_scheme_subtract n f srcs sinks npaths cutoff = paths subtract_path n f srcs sinks npaths cutoff /\
+  gen_paths gen_scheme_bottleneck n f srcs sinks npaths cutoff = paths remove_bottleneck n f srcs sinks npaths cutoff.
+Proof. exact gen_paths_schemes_eq. Qed.
+Print Assumptions c17_generated_paths_is_model.
+
+Example c17_example_generated :
+  gen_paths gen_scheme_subtract 6 ex_graph [0] [5] None (999 # 1000) =
+    Ok ([[0; 1; 3; 5]; [0; 2; 4; 5]; [0; 2; 3; 5]], [3; 2; 1]%Q)
+  /\ gen_paths gen_scheme_bottleneck 5 f2_graph [0] [4] None (9 # 10) = Ok ([[0; 1; 2; 4]; [0; 1; 3; 4]], [1; 1]%Q)
+  /\ gen_top_path 6 ex_graph [5] [0] = Ok ([0], NInf).
+Proof. vm_compute. repeat split; reflexivity. Qed.
+Print Assumptions c17_example_generated.
